@@ -100,7 +100,7 @@ theorem reabsorb_noop (s : CSt) (m : Nat)
 
 /-- **`_reabsorb_solver` re-establishes the invariant** (the statement; proved as `reabsorbKeeps`, CompositeReplace.lean):
 `_reabsorb_solver(m)`, called with the invariant in force on a temporary child `m` that holds exactly the
-constraints of the children owning its variables (all of them satisfiable: `_ensure_sat` has run), re-establishes the invariant.
+constraints of the children owning its variables (those satisfiable: `_ensure_sat` has run), re-establishes the invariant.
 Both branches: `len(parts) == len(old)` (`update` of the old children: cached models whose key set is the child's variable set,
 and the parts' exhausted markers) and the replacement of the children by the parts. -/
 def ReabsorbKeeps (R : Con → Prop) (RE : Exp → Prop) (E : Env) : Prop :=
@@ -108,7 +108,7 @@ def ReabsorbKeeps (R : Con → Prop) (RE : Exp → Prop) (E : Env) : Prop :=
     (∀ v ∈ (s.child m).variables, ∃ t, alGet? s.c.solvers v = some t) →
     (∀ t ∈ s.c.solversFor (s.child m).variables, ∀ v ∈ (s.child t).variables, v ∈ (s.child m).variables) →
     (∀ a, Models (Us.getD m []) a ↔ ∀ t ∈ s.c.solversFor (s.child m).variables, Models (Us.getD t []) a) →
-    (∀ t ∈ s.c.solverList, Satisfiable (Us.getD t [])) → s.c.unsat = false →
+    (∀ t ∈ s.c.solversFor (s.child m).variables, Satisfiable (Us.getD t [])) → s.c.unsat = false →
     ∀ s', reabsorb E m s = (.ok (), s') → ∃ Us', CInv R RE E U Us' s'
 
 /-- all names of a query are one variable -/
@@ -163,6 +163,21 @@ theorem solversFor_congr {c c' : Comp} (h : c'.solvers = c.solvers) (names : Lis
     funext acc n
     simp only [Comp.solversForStep, h]
   simp only [Comp.solversFor, hstep]
+
+theorem solversFor_nodup (c : Comp) (names : List Var) : (c.solversFor names).Nodup := by
+  unfold Comp.solversFor
+  have : ∀ (acc : List Nat), acc.Nodup → (names.foldl c.solversForStep acc).Nodup := by
+    induction names with
+    | nil => intro acc h; exact h
+    | cons n ns ih =>
+      intro acc h
+      simp only [List.foldl_cons]
+      refine ih _ ?_
+      unfold Comp.solversForStep
+      split
+      · exact nodup_listInsert acc _ h
+      · exact h
+  exact this [] List.nodup_nil
 
 theorem UniqOwner.congr {c c' : Comp} (h : c'.solvers = c.solvers) {names : List Var} (hu : UniqOwner c names) :
     UniqOwner c' names := by
@@ -357,10 +372,10 @@ theorem compQuery_keeps {α : Type} {U : List Con} {Us : List (List Con)} {s : C
                 have := hall t ((hmem t).mpr ht)
                 rwa [(hm.frame t (hltN t ht)).2] at this
             · intro t ht
-              rw [hc2] at ht
-              obtain ⟨v, hvt⟩ := (mem_solverList' _ h0.nodup t).mp ht
-              rw [(hm.frame t (h0.map v t hvt).1).2]
-              exact hallsat t ht
+              rw [hmv, hc2] at ht
+              have ht' := (hmem t).mp ht
+              rw [(hm.frame t (hltN t ht')).2]
+              exact hallsat t (hsolIn t ht')
 
 /-- **`is_true` / `is_false` of SolverCompositeChild have the footprint** (`_get_solver`, one question to the backend) -/
 theorem child_truth_foot {G : St → Prop} {U : List Con} (isT : Bool) (c : Con) (extra : List Con) :
